@@ -349,6 +349,15 @@ def labels_case(args):
         dtimes = list(r["dynamics"][0].times)
         if len(dtimes) != ns + 1 or np.abs(np.array(dtimes) - np.array(r["time"])).max() > 0:
             vio.append(("PtTebd|end_step|dynamics-times", f"ns={ns}", ns))
+        # a computation that starts at a later step of the process tensors: start_time labels the first record
+        if ns >= 1:
+            k0 = NPT - ns
+            tebd = oq.PtTebd(oq.AugmentedMPS([M.RHO_PLUS, M.RHO_PLUS]), chain, [None, None],
+                             oq.PtTebdParameters(dt=dt, order=2, epsrel=1e-7), start_time=st, start_step=k0,
+                             dynamics_sites=[0])
+            r = tebd.compute(k0 + ns, progress_type="silent")
+            evals += 1
+            _check_series("PtTebd", (dts, starts, f"start_step"), list(r["time"]), range(len(r["time"])), ns, st, dt, vio, ns)
     return {"evals": evals, "vio": vio}
 
 
